@@ -20,6 +20,10 @@ import CklVerif.Lemmas.C19SrcSetup
 import CklVerif.Lemmas.C19Int
 import CklVerif.Lemmas.C19SrcList
 import CklVerif.Lemmas.C19List
+import CklVerif.Lemmas.C19SrcMisc
+import CklVerif.Lemmas.C19SrcLoad
+import CklVerif.Lemmas.C19SrcAppend
+import CklVerif.Lemmas.C19SrcReduce
 namespace Ckl.C19Src
 open Ckl Ckl.Lib Ckl.Gen.LibSrc
 variable (ld : Loader)
@@ -194,5 +198,401 @@ example : ∃ s', Ext exState s' ∧ ∀ fuel, 23 < fuel →
     eval ld fuel 1 (.call (.ident "sign" {}) [none] [.ident "x" {}] {}) exState = .ok (.int (-1)) s' :=
   sign_call_node ld (n := -5) exState_libEnv (fun _ h => h) (fun _ h => h) rfl exState_sign (env := 1) (fname := "sign") rfl
     (a := .ident "x" {}) trivial (k := 0) (Ev.ident ld (v := .int (-5)) rfl) {} {}
+
+/-! ## 4  list.ckl: `first`, `last` (indexing) -/
+
+/-- **The source of `first` returns the head**: on a list cell holding `xs` with `xs.head? = some x` it returns `x`; nothing that
+    existed is changed (`Ext`, so in particular the argument cell).  (`x` must not be one of the control signals `return`/`break`/
+    `continue`, which are values of the model but never elements of a list the interpreter builds: `fn.execute` would unwrap them.) -/
+theorem first_src {s : State} {M nats srcs fn m} (h : LibEnv s M nats srcs) (hn : ∀ x ∈ firstNats, x ∈ nats)
+    (hs : ∀ p ∈ firstSrcs, p ∈ srcs) (hm : M m) (hsrc : IsSrc s fn list_first m) (a : Nat) (xs : List RVal)
+    (hc : s.cell a = some (.list xs)) (x : RVal) (hx : xs.head? = some x) (hctl : isCtl x = false) :
+    ∃ s', Ext s s' ∧ ∀ fuel env pos, 14 < fuel → callFn ld fuel fn [("lst", .ref a)] env pos s = .ok x s' := by
+  obtain ⟨s', e, c⟩ := first_calls_list ld h hn hs hm hsrc a xs hc
+  have hd : Seq.deref xs 0 = some x := by rw [← hx, ← C19.firstM_eq]; rfl
+  refine ⟨s', e, fun fuel env pos hf => ?_⟩
+  have := c env pos fuel hf
+  simpa only [derefOut, hd, postCall_ok_of_not_ctl hctl] using this
+
+/-- `first([])`: the runtime error `Index out of bounds`, raised at the indexing node of the source -/
+theorem first_src_empty {s : State} {M nats srcs fn m} (h : LibEnv s M nats srcs) (hn : ∀ x ∈ firstNats, x ∈ nats)
+    (hs : ∀ p ∈ firstSrcs, p ∈ srcs) (hm : M m) (hsrc : IsSrc s fn list_first m) (a : Nat)
+    (hc : s.cell a = some (.list [])) :
+    ∃ s', Ext s s' ∧ ∀ fuel env pos, 14 < fuel → callFn ld fuel fn [("lst", .ref a)] env pos s =
+      .err (.str ['E', 'R', 'R', 'O', 'R']) "Index out of bounds" (elsePos (lamBody list_first)) [] s' :=
+  let ⟨s', e, c⟩ := first_calls_list ld h hn hs hm hsrc a [] hc; ⟨s', e, fun fuel env pos hf => c env pos fuel hf⟩
+
+theorem first_src_null {s : State} {M nats srcs fn m} (h : LibEnv s M nats srcs) (hn : ∀ x ∈ firstNats, x ∈ nats)
+    (hm : M m) (hsrc : IsSrc s fn list_first m) :
+    ∃ s', Ext s s' ∧ ∀ fuel env pos, 14 < fuel → callFn ld fuel fn [("lst", .null)] env pos s = .ok .null s' :=
+  let ⟨s', e, c⟩ := first_calls_null ld h hn hm hsrc; ⟨s', e, fun fuel env pos hf => c env pos fuel hf⟩
+
+/-- **The source of `last` returns the last element** (`List.getLast?`) -/
+theorem last_src {s : State} {M nats srcs fn m} (h : LibEnv s M nats srcs) (hn : ∀ x ∈ firstNats, x ∈ nats)
+    (hs : ∀ p ∈ firstSrcs, p ∈ srcs) (hm : M m) (hsrc : IsSrc s fn list_last m) (a : Nat) (xs : List RVal)
+    (hc : s.cell a = some (.list xs)) (x : RVal) (hx : xs.getLast? = some x) (hctl : isCtl x = false) :
+    ∃ s', Ext s s' ∧ ∀ fuel env pos, 14 < fuel → callFn ld fuel fn [("lst", .ref a)] env pos s = .ok x s' := by
+  obtain ⟨s', e, c⟩ := last_calls_list ld h hn hs hm hsrc a xs hc
+  have hd : Seq.deref xs (-1) = some x := by rw [← hx, ← C19.lastM_eq]; rfl
+  refine ⟨s', e, fun fuel env pos hf => ?_⟩
+  have := c env pos fuel hf
+  simpa only [derefOut, hd, postCall_ok_of_not_ctl hctl] using this
+
+theorem last_src_empty {s : State} {M nats srcs fn m} (h : LibEnv s M nats srcs) (hn : ∀ x ∈ firstNats, x ∈ nats)
+    (hs : ∀ p ∈ firstSrcs, p ∈ srcs) (hm : M m) (hsrc : IsSrc s fn list_last m) (a : Nat)
+    (hc : s.cell a = some (.list [])) :
+    ∃ s', Ext s s' ∧ ∀ fuel env pos, 14 < fuel → callFn ld fuel fn [("lst", .ref a)] env pos s =
+      .err (.str ['E', 'R', 'R', 'O', 'R']) "Index out of bounds" (elsePos (lamBody list_last)) [] s' :=
+  let ⟨s', e, c⟩ := last_calls_list ld h hn hs hm hsrc a [] hc; ⟨s', e, fun fuel env pos hf => c env pos fuel hf⟩
+
+theorem last_src_null {s : State} {M nats srcs fn m} (h : LibEnv s M nats srcs) (hn : ∀ x ∈ firstNats, x ∈ nats)
+    (hm : M m) (hsrc : IsSrc s fn list_last m) :
+    ∃ s', Ext s s' ∧ ∀ fuel env pos, 14 < fuel → callFn ld fuel fn [("lst", .null)] env pos s = .ok .null s' :=
+  let ⟨s', e, c⟩ := last_calls_null ld h hn hm hsrc; ⟨s', e, fun fuel env pos hf => c env pos fuel hf⟩
+
+/-- non-vacuity: `[1, 2, 3]` has head 1 and last element 3, neither a control signal -/
+example : ([RVal.int 1, .int 2, .int 3]).head? = some (.int 1) ∧ ([RVal.int 1, .int 2, .int 3]).getLast? = some (.int 3) ∧
+    isCtl (.int 1) = false := ⟨rfl, rfl, rfl⟩
+
+/-! ## 5  math.ckl: `is_even`, `is_odd` (block with a guard that `return`s) -/
+
+/-- **The source of `is_even` decides `2 ∣ n`** on every int -/
+theorem is_even_src_int {s : State} {M nats srcs fn m} (h : LibEnv s M nats srcs) (hn : ∀ x ∈ evenNats, x ∈ nats)
+    (hs : ∀ p ∈ mathSrcs, p ∈ srcs) (hm : M m) (hsrc : IsSrc s fn math_is_even m) (n : Int) :
+    ∃ s', Ext s s' ∧ ∀ fuel env pos, 25 < fuel →
+      callFn ld fuel fn [("n", .int n)] env pos s = .ok (.bool (decide (2 ∣ n))) s' := by
+  obtain ⟨s', e, c⟩ := is_even_calls_int ld h hn hs hm hsrc n
+  have : Lib.isEvenM n = decide (2 ∣ n) := by
+    rw [Bool.eq_iff_iff]; simp [C19.isEvenM_iff]
+  rw [this] at c
+  exact ⟨s', e, fun fuel env pos hf => c env pos fuel hf⟩
+
+theorem is_even_src_eq_mirror {s : State} {M nats srcs fn m} (h : LibEnv s M nats srcs) (hn : ∀ x ∈ evenNats, x ∈ nats)
+    (hs : ∀ p ∈ mathSrcs, p ∈ srcs) (hm : M m) (hsrc : IsSrc s fn math_is_even m) (n : Int) :
+    ∃ s', Ext s s' ∧ ∀ fuel env pos, 25 < fuel →
+      callFn ld fuel fn [("n", .int n)] env pos s = .ok (.bool (isEvenM n)) s' :=
+  let ⟨s', e, c⟩ := is_even_calls_int ld h hn hs hm hsrc n; ⟨s', e, fun fuel env pos hf => c env pos fuel hf⟩
+
+/-- **The source of `is_odd`**: TRUE exactly when `2 ∤ n` -/
+theorem is_odd_src_int {s : State} {M nats srcs fn m} (h : LibEnv s M nats srcs) (hn : ∀ x ∈ evenNats, x ∈ nats)
+    (hs : ∀ p ∈ mathSrcs, p ∈ srcs) (hm : M m) (hsrc : IsSrc s fn math_is_odd m) (n : Int) :
+    ∃ s', Ext s s' ∧ ∀ fuel env pos, 25 < fuel →
+      callFn ld fuel fn [("n", .int n)] env pos s = .ok (.bool (!decide (2 ∣ n))) s' := by
+  obtain ⟨s', e, c⟩ := is_odd_calls_int ld h hn hs hm hsrc n
+  have : Lib.isOddM n = !decide (2 ∣ n) := by
+    rw [C19.isOddM_eq_not_isEvenM]; congr 1
+    rw [Bool.eq_iff_iff]; simp [C19.isEvenM_iff]
+  rw [this] at c
+  exact ⟨s', e, fun fuel env pos hf => c env pos fuel hf⟩
+
+/-- a non-numeric argument (string, list, NULL, …): the guard `return`s FALSE -/
+theorem is_even_src_not_numeric {s : State} {M nats srcs fn m} (h : LibEnv s M nats srcs) (hn : ∀ x ∈ evenNats, x ∈ nats)
+    (hs : ∀ p ∈ mathSrcs, p ∈ srcs) (hm : M m) (hsrc : IsSrc s fn math_is_even m) (v : RVal) (h1 : v.isNumerical = false) :
+    ∃ s', Ext s s' ∧ ∀ fuel env pos, 25 < fuel → callFn ld fuel fn [("n", v)] env pos s = .ok (.bool false) s' :=
+  let ⟨s', e, c⟩ := is_even_calls_nonnum ld h hn hs hm hsrc v h1; ⟨s', e, fun fuel env pos hf => c env pos fuel hf⟩
+
+theorem is_odd_src_not_numeric {s : State} {M nats srcs fn m} (h : LibEnv s M nats srcs) (hn : ∀ x ∈ evenNats, x ∈ nats)
+    (hs : ∀ p ∈ mathSrcs, p ∈ srcs) (hm : M m) (hsrc : IsSrc s fn math_is_odd m) (v : RVal) (h1 : v.isNumerical = false) :
+    ∃ s', Ext s s' ∧ ∀ fuel env pos, 25 < fuel → callFn ld fuel fn [("n", v)] env pos s = .ok (.bool false) s' :=
+  let ⟨s', e, c⟩ := is_odd_calls_nonnum ld h hn hs hm hsrc v h1; ⟨s', e, fun fuel env pos hf => c env pos fuel hf⟩
+
+/-! ## 6  predicate.ckl: `is_zero`, `is_negative`, `is_positive` — for EVERY value -/
+
+/-- `is_zero(v)`: `isZeroV v` (`n = 0` on ints, numeric equality with 0 on decimals, FALSE on everything else) -/
+theorem is_zero_src {s : State} {M nats srcs fn m} (h : LibEnv s M nats srcs) (hn : ∀ x ∈ mathNats, x ∈ nats)
+    (hs : ∀ p ∈ mathSrcs, p ∈ srcs) (hm : M m) (hsrc : IsSrc s fn predicate_is_zero m) (v : RVal) :
+    ∃ s', Ext s s' ∧ ∀ fuel env pos, 20 < fuel → callFn ld fuel fn [("obj", v)] env pos s = .ok (.bool (isZeroV v)) s' :=
+  let ⟨s', e, c⟩ := is_zero_calls ld h hn hs hm hsrc v; ⟨s', e, fun fuel env pos hf => c env pos fuel hf⟩
+
+/-- `is_negative(v)`: `n < 0` on ints, the exact dyadic comparison on decimals, FALSE on everything else -/
+theorem is_negative_src {s : State} {M nats srcs fn m} (h : LibEnv s M nats srcs) (hn : ∀ x ∈ mathNats, x ∈ nats)
+    (hs : ∀ p ∈ mathSrcs, p ∈ srcs) (hm : M m) (hsrc : IsSrc s fn predicate_is_negative m) (v : RVal) :
+    ∃ s', Ext s s' ∧ ∀ fuel env pos, 20 < fuel → callFn ld fuel fn [("obj", v)] env pos s = .ok (.bool (isNegativeV v)) s' :=
+  let ⟨s', e, c⟩ := is_negative_calls ld h hn hs hm hsrc v; ⟨s', e, fun fuel env pos hf => c env pos fuel hf⟩
+
+/-- `is_positive(v)`: `0 < n` on ints, `not (v < 0) and v != 0` on decimals, FALSE on everything else -/
+theorem is_positive_src {s : State} {M nats srcs fn m} (h : LibEnv s M nats srcs) (hn : ∀ x ∈ mathNats, x ∈ nats)
+    (hs : ∀ p ∈ mathSrcs, p ∈ srcs) (hm : M m) (hsrc : IsSrc s fn predicate_is_positive m) (v : RVal) :
+    ∃ s', Ext s s' ∧ ∀ fuel env pos, 20 < fuel → callFn ld fuel fn [("obj", v)] env pos s = .ok (.bool (isPositiveVal v)) s' :=
+  let ⟨s', e, c⟩ := is_positive_calls_all ld h hn hs hm hsrc v; ⟨s', e, fun fuel env pos hf => c env pos fuel hf⟩
+
+/-- the three value functions on ints are the textbook predicates; on strings they are FALSE -/
+example (n : Int) : isZeroV (.int n) = decide (n = 0) ∧ isNegativeV (.int n) = decide (n < 0) ∧
+    isPositiveVal (.int n) = decide (0 < n) ∧ isZeroV (.str ['0']) = false := ⟨rfl, rfl, rfl, rfl⟩
+
+/-! ## 7  core.ckl one-liners: `non_empty`, `const`, `non_zero` -/
+
+/-- `non_empty(a, b)`: `b` when `a` is the empty string, else `a` — for all (non-control) values -/
+theorem non_empty_src {s : State} {M nats srcs fn m} (h : LibEnv s M nats srcs) (hn : "equals" ∈ nats)
+    (hm : M m) (hsrc : IsSrc s fn core_non_empty m) (a b : RVal) (ha : isCtl a = false) (hb : isCtl b = false) :
+    ∃ s', Ext s s' ∧ ∀ fuel env pos, 7 < fuel →
+      callFn ld fuel fn [("a", a), ("b", b)] env pos s = .ok (if isEmptyStr a then b else a) s' := by
+  obtain ⟨s', e, c⟩ := non_empty_calls ld h hn hm hsrc a b
+  rw [postCall_ok_of_not_ctl (by cases isEmptyStr a <;> simp [ha, hb])] at c
+  exact ⟨s', e, fun fuel env pos hf => c env pos fuel hf⟩
+
+/-- **`const(val)` returns a function that returns `val`**: the call returns a fresh function value `f` (cell `s.heap.size`), and
+    calling `f` on ANY argument `x` (in the state after the first call) returns `val`, for every fuel above 2 -/
+theorem const_src {s : State} {M nats srcs fn m} (h : LibEnv s M nats srcs) (hm : M m) (hsrc : IsSrc s fn core_const m)
+    (val : RVal) (hval : isCtl val = false) :
+    ∃ s', Ext s s' ∧
+      (∀ fuel env pos, 2 < fuel → callFn ld fuel fn [("val", val)] env pos s = .ok (.closure s.heap.size) s') ∧
+      ∀ x : RVal, ∃ s'', Ext s' s'' ∧
+        ∀ fuel env pos, 2 < fuel → callFn ld fuel (.closure s.heap.size) [("a", x)] env pos s' = .ok val s'' := by
+  obtain ⟨s', e, ⟨hcell, hvars, hlt⟩, c⟩ := const_calls ld h hm hsrc val
+  refine ⟨s', e, fun fuel env pos hf => c env pos fuel hf, fun x => ?_⟩
+  obtain ⟨s'', e'', c''⟩ := const_inner_calls ld val x hcell rfl hvars hlt
+  rw [postCall_ok_of_not_ctl hval] at c''
+  exact ⟨s'', e'', fun fuel env pos hf => c'' env pos fuel hf⟩
+
+/-- `non_zero(a, b)` on an int `a`.  PARTIAL: the source calls `int(a)`, and `int` is not one of the built-ins the evaluator model
+    interprets (`callPure "int" … = none`; its meaning is the loader parameter `nativeSem`).  Full statement wanted: the same without
+    `hint`.  What is missing: a model of `FuncInt` inside `callPure` (the driver's `driverNativeSem` has one, outside `Model/`). -/
+theorem non_zero_src_partial {s : State} {M nats srcs fn m} (h : LibEnv s M nats srcs)
+    (hn : ∀ x ∈ ["int", "equals"], x ∈ nats) (hm : M m) (hsrc : IsSrc s fn core_non_zero m) (n : Int) (b : RVal)
+    (hb : isCtl b = false) (hint : ∀ s, ld.nativeSem "int" [("obj", .int n)] s = .ok (.int n) s) :
+    ∃ s', Ext s s' ∧ ∀ fuel env pos, 10 < fuel →
+      callFn ld fuel fn [("a", .int n), ("b", b)] env pos s = .ok (if n = 0 then b else .int n) s' := by
+  obtain ⟨s', e, c⟩ := non_zero_calls_int ld h hn hm hsrc n b hint
+  rw [postCall_ok_of_not_ctl (by
+    by_cases h0 : n = 0
+    · simp [h0, hb]
+    · simp only [h0, if_false]; rfl)] at c
+  exact ⟨s', e, fun fuel env pos hf => c env pos fuel hf⟩
+
+/-- the hypothesis `hint` is satisfiable: a loader whose `nativeSem` returns its int argument -/
+example (n : Int) : ∃ ld : Loader, ∀ s, ld.nativeSem "int" [("obj", .int n)] s = .ok (.int n) s :=
+  ⟨{ nativeSem := fun _ _ s => .ok (.int n) s }, fun _ => rfl⟩
+
+/-! ## 8  list.ckl: `reverse_list` (a `for` loop over a list cell) -/
+
+/-- **The source of `reverse_list` computes `List.reverse`**: called on a list cell holding `xs` it returns a reference to a FRESH
+    cell `b` (`s.heap.size ≤ b`: the address did not exist before the call) that holds `xs.reverse`; the argument cell and everything
+    else that existed is unchanged (`Ext`); explicit fuel bound `xs.length + 18`. -/
+theorem reverse_list_src {s : State} {M nats srcs fn m} (h : LibEnv s M nats srcs) (hn : ∀ x ∈ reverseNats, x ∈ nats)
+    (hs : ∀ p ∈ firstSrcs, p ∈ srcs) (hm : M m) (hsrc : IsSrc s fn list_reverse_list m) (a : Nat) (xs : List RVal)
+    (hc : s.cell a = some (.list xs)) :
+    ∃ s' b, Ext s s' ∧ s.heap.size ≤ b ∧ s'.cell b = some (.list xs.reverse) ∧ s'.cell a = some (.list xs) ∧
+      ∀ fuel env pos, xs.length + 18 < fuel → callFn ld fuel fn [("list", .ref a)] env pos s = .ok (.ref b) s' := by
+  obtain ⟨s', e, ⟨h1, h2⟩, c⟩ := reverse_list_calls_list ld h hn hs hm hsrc a xs hc
+  exact ⟨s', _, e, h1, h2, by rw [e.cell a (cell_lt hc)]; exact hc, fun fuel env pos hf => c env pos fuel hf⟩
+
+/-- … which is the hand-written mirror `Lib.reverseM` of C19 -/
+theorem reverse_list_src_eq_mirror {s : State} {M nats srcs fn m} (h : LibEnv s M nats srcs) (hn : ∀ x ∈ reverseNats, x ∈ nats)
+    (hs : ∀ p ∈ firstSrcs, p ∈ srcs) (hm : M m) (hsrc : IsSrc s fn list_reverse_list m) (a : Nat) (xs : List RVal)
+    (hc : s.cell a = some (.list xs)) :
+    ∃ s' b, Ext s s' ∧ s.heap.size ≤ b ∧ s'.cell b = some (.list (reverseM xs)) ∧ s'.cell a = some (.list xs) ∧
+      ∀ fuel env pos, xs.length + 18 < fuel → callFn ld fuel fn [("list", .ref a)] env pos s = .ok (.ref b) s' := by
+  rw [C19.reverseM_eq]; exact reverse_list_src ld h hn hs hm hsrc a xs hc
+
+/-- `reverse_list` of anything that is not a list (a string, a number, NULL, …): NULL -/
+theorem reverse_list_src_not_list {s : State} {M nats srcs fn m} (h : LibEnv s M nats srcs) (hn : ∀ x ∈ reverseNats, x ∈ nats)
+    (hs : ∀ p ∈ firstSrcs, p ∈ srcs) (hm : M m) (hsrc : IsSrc s fn list_reverse_list m) (v : RVal)
+    (hv : isListR s v = false) :
+    ∃ s', Ext s s' ∧ ∀ fuel env pos, 15 < fuel → callFn ld fuel fn [("list", v)] env pos s = .ok .null s' :=
+  let ⟨s', e, c⟩ := reverse_list_calls_nonlist ld h hn hs hm hsrc v hv; ⟨s', e, fun fuel env pos hf => c env pos fuel hf⟩
+
+/-! ## 9  math.ckl: `gcd` (recursion through the environment) -/
+
+/-- **The source of `gcd` computes `Int.gcd`** for all ints `a`, `b` (any signs; `gcd(0, 0) = 0`): the recursive call
+    `gcd(b, a % b)` is resolved through the environment (`("gcd", math_gcd) ∈ srcs`).  Explicit fuel bound
+    `gcdFuel b = 30 * (|b| + 1) + 1` (a constant per Euclid step, at most `|b| + 1` steps). -/
+theorem gcd_src_int {s : State} {M nats srcs fn m} (h : LibEnv s M nats srcs) (hn : ∀ x ∈ gcdNats, x ∈ nats)
+    (hs : ∀ p ∈ gcdSrcs, p ∈ srcs) (hm : M m) (hsrc : IsSrc s fn math_gcd m) (a b : Int) :
+    ∃ s', Ext s s' ∧ ∀ fuel env pos, gcdFuel b < fuel →
+      callFn ld fuel fn [("a", .int a), ("b", .int b)] env pos s = .ok (.int (Int.gcd a b : Int)) s' :=
+  let ⟨s', e, c⟩ := gcd_calls_int_gcd ld h hn hs hm hsrc a b; ⟨s', e, fun fuel env pos hf => c env pos fuel hf⟩
+
+theorem gcd_src_eq_mirror {s : State} {M nats srcs fn m} (h : LibEnv s M nats srcs) (hn : ∀ x ∈ gcdNats, x ∈ nats)
+    (hs : ∀ p ∈ gcdSrcs, p ∈ srcs) (hm : M m) (hsrc : IsSrc s fn math_gcd m) (a b : Int) :
+    ∃ s', Ext s s' ∧ ∀ fuel env pos, gcdFuel b < fuel →
+      callFn ld fuel fn [("a", .int a), ("b", .int b)] env pos s = .ok (.int (gcdM a b)) s' :=
+  let ⟨s', e, c⟩ := gcd_calls_int ld h hn hs hm hsrc a b; ⟨s', e, fun fuel env pos hf => c env pos fuel hf⟩
+
+example : gcdFuel (-6) = 211 := by decide
+
+/-! ## 10  where the hypothesis comes from: loading the generated definitions into the driver's initial state -/
+
+/-- **Evaluating a list of generated `def` nodes in a module frame establishes `LibEnv`.**  `defs`: generated definitions with
+    pairwise different names, none called `NULL` or like one of the built-ins `nats`; `s`: any state in which, from frame `m`, `NULL`
+    and the built-ins resolve.  Then the statement list `defs` evaluates (fuel above `defs.length + 1`) to a state `s'` with
+    `LibEnv s' (· = m) nats [(name, def) …]`; other frames, old heap cells and the output are unchanged. -/
+theorem load_defs_establishes_libEnv (defs : List Node) (hall : ∀ d ∈ defs, IsDefLam d) (hnd : (defs.map defName).Nodup)
+    (nats : List String) (hdisj : ∀ x ∈ "NULL" :: nats, x ∉ defs.map defName)
+    (s : State) (m : EnvId) (hlt : m < s.frames.size)
+    (hnull : Res s m "NULL" .null) (hnat : ∀ x ∈ nats, ∃ i, Res s m x (.native x i)) (last : RVal) :
+    ∃ v s', (∀ fuel, defs.length + 1 < fuel → evalBody ld fuel m defs last s = .ok v s') ∧
+      LibEnv s' (· = m) nats (defs.map (fun d => (defName d, d))) ∧
+      (∀ i, i < s.frames.size → i ≠ m → s'.frame i = s.frame i) ∧ s'.frames.size = s.frames.size ∧
+      (∀ a, a < s.heap.size → s'.cell a = s.cell a) ∧ s'.out = s.out :=
+  load_defs_libEnv ld defs hall hnd nats hdisj s m hlt hnull hnat last
+
+/-- **The driver's initial state + the generated definitions satisfy `LibEnv`**: `initialState secure loadNats` (`Driver/EvalCmd.lean`:
+    base frame 0 with the constants and one built-in per name, session/module frame 1) followed by the 21 generated definitions
+    `loadDefs` (all functions proved in this file) evaluated as a statement list in frame 1. -/
+theorem initialState_loaded_libEnv (secure : Bool) (last : RVal) :
+    ∃ v s', (∀ fuel, loadDefs.length + 1 < fuel →
+        evalBody ld fuel 1 loadDefs last (initialState secure loadNats).1 = .ok v s') ∧
+      LibEnv s' (· = 1) loadNats (loadDefs.map (fun d => (defName d, d))) :=
+  initialState_load_libEnv ld secure last
+
+theorem loadNats_math : ∀ x ∈ gcdNats, x ∈ loadNats := by decide
+
+theorem loadSrcs_gcd : ∀ p ∈ gcdSrcs, p ∈ loadDefs.map (fun d => (defName d, d)) := by
+  intro p hp
+  simp only [gcdSrcs, mathSrcs, List.cons_append, List.nil_append, List.mem_cons, List.not_mem_nil, or_false] at hp
+  rcases hp with rfl | rfl | rfl | rfl | rfl
+  · exact List.mem_map.2 ⟨type_is_numeric, by simp [loadDefs], rfl⟩
+  · exact List.mem_map.2 ⟨type_is_int, by simp [loadDefs], rfl⟩
+  · exact List.mem_map.2 ⟨type_is_decimal, by simp [loadDefs], rfl⟩
+  · exact List.mem_map.2 ⟨math_abs, by simp [loadDefs], rfl⟩
+  · exact List.mem_map.2 ⟨math_gcd, by simp [loadDefs], rfl⟩
+
+/-- **End to end**: load the generated definitions into the driver's initial state; in the resulting state the name `gcd` resolves
+    (from the session frame 1) to a function value, and calling it on two ints returns `Int.gcd` — no hypothesis on the state left. -/
+theorem loaded_gcd (secure : Bool) (last : RVal) (a b : Int) :
+    ∃ v s1, (∀ fuel, loadDefs.length + 1 < fuel →
+        evalBody ld fuel 1 loadDefs last (initialState secure loadNats).1 = .ok v s1) ∧
+      ∃ fn, s1.lookup 1 "gcd" = some fn ∧
+        ∃ s', Ext s1 s' ∧ ∀ fuel env pos, gcdFuel b < fuel →
+          callFn ld fuel fn [("a", .int a), ("b", .int b)] env pos s1 = .ok (.int (Int.gcd a b : Int)) s' := by
+  obtain ⟨v, s1, hev, hlib⟩ := initialState_load_libEnv ld secure last
+  obtain ⟨fn, hres, hsrc⟩ := loaded_isSrc hlib (d := math_gcd) (by simp [loadDefs])
+  refine ⟨v, s1, hev, fn, ?_, gcd_src_int ld hlib loadNats_math loadSrcs_gcd rfl hsrc a b⟩
+  have hlt : 1 < s1.frames.size := hlib.lt 1 rfl
+  exact lookupF_res hres _ (by omega)
+
+/-- the same for `abs` -/
+theorem loaded_abs (secure : Bool) (last : RVal) (n : Int) :
+    ∃ v s1, (∀ fuel, loadDefs.length + 1 < fuel →
+        evalBody ld fuel 1 loadDefs last (initialState secure loadNats).1 = .ok v s1) ∧
+      ∃ fn, s1.lookup 1 "abs" = some fn ∧
+        ∃ s', Ext s1 s' ∧ ∀ fuel env pos, 21 < fuel →
+          callFn ld fuel fn [("n", .int n)] env pos s1 = .ok (.int (n.natAbs : Int)) s' := by
+  obtain ⟨v, s1, hev, hlib⟩ := initialState_load_libEnv ld secure last
+  obtain ⟨fn, hres, hsrc⟩ := loaded_isSrc hlib (d := math_abs) (by simp [loadDefs])
+  refine ⟨v, s1, hev, fn, ?_, abs_src_int ld hlib (fun x hx => loadNats_math x (gcdNats_math (fun _ h => h) x hx))
+    (fun p hp => loadSrcs_gcd p (gcdSrcs_math (fun _ h => h) p hp)) rfl hsrc n⟩
+  have hlt : 1 < s1.frames.size := hlib.lt 1 rfl
+  exact lookupF_res hres _ (by omega)
+
+
+/-! ## 11  list.ckl: `append_all` — the documented MUTATOR -/
+
+/-- **The source of `append_all` mutates exactly its first argument.**  `lst` a list cell `a` holding `xs`, `items` a list cell `b`
+    holding `ys` (`b = a` allowed: `append_all(x, x)`): the call returns `.ref a`, afterwards cell `a` holds `xs ++ ys`, and
+    `ExtBut a s s'`: every frame, the output and every OTHER heap cell that existed are unchanged (in particular `items` when
+    `b ≠ a`).  The loop runs over the copy `sublist(list(items), 0)`, which is why `a = b` terminates.  Fuel bound `ys.length + 13`. -/
+theorem append_all_src {s : State} {M nats srcs fn m} (h : LibEnv s M nats srcs) (hn : ∀ x ∈ appendNats, x ∈ nats)
+    (hm : M m) (hsrc : IsSrc s fn list_append_all m) (a b : Nat) (xs ys : List RVal)
+    (hca : s.cell a = some (.list xs)) (hcb : s.cell b = some (.list ys)) :
+    ∃ s', ExtBut a s s' ∧ s'.cell a = some (.list (xs ++ ys)) ∧ (b ≠ a → s'.cell b = some (.list ys)) ∧
+      ∀ fuel env pos, ys.length + 13 < fuel →
+        callFn ld fuel fn [("lst", .ref a), ("items", .ref b)] env pos s = .ok (.ref a) s' := by
+  obtain ⟨s', e, hc, c⟩ := append_all_calls_lists ld h hn hm hsrc a b xs ys hca hcb
+  exact ⟨s', e, hc, fun hne => by rw [e.cell b (cell_lt hcb) hne]; exact hcb, fun fuel env pos hf => c env pos fuel hf⟩
+
+/-- … with the content stated through the mirror `Lib.appendAllM` of C19 -/
+theorem append_all_src_eq_mirror {s : State} {M nats srcs fn m} (h : LibEnv s M nats srcs) (hn : ∀ x ∈ appendNats, x ∈ nats)
+    (hm : M m) (hsrc : IsSrc s fn list_append_all m) (a b : Nat) (xs ys : List RVal)
+    (hca : s.cell a = some (.list xs)) (hcb : s.cell b = some (.list ys)) :
+    ∃ s', ExtBut a s s' ∧ s'.cell a = some (.list (appendAllM xs ys)) ∧
+      ∀ fuel env pos, ys.length + 13 < fuel →
+        callFn ld fuel fn [("lst", .ref a), ("items", .ref b)] env pos s = .ok (.ref a) s' := by
+  obtain ⟨s', e, hc, c⟩ := append_all_calls_lists_mirror ld h hn hm hsrc a b xs ys hca hcb
+  exact ⟨s', e, hc, fun fuel env pos hf => c env pos fuel hf⟩
+
+/-! ## 12  the hypotheses of the loop theorems are satisfiable -/
+
+/-- a state satisfying every hypothesis of `reverse_list_src`, `append_all_src`, `first_src`, `gcd_src_int`, …: the driver's initial
+    state with the generated definitions loaded (section 10) plus one list cell -/
+example (secure : Bool) : ∃ (s : State) (f1 f2 : RVal) (a : Nat),
+    LibEnv s (· = 1) loadNats (loadDefs.map (fun d => (defName d, d))) ∧
+    IsSrc s f1 list_reverse_list 1 ∧ IsSrc s f2 list_append_all 1 ∧ s.cell a = some (.list [.int 1, .int 2, .int 3]) := by
+  obtain ⟨v, s1, _, hlib⟩ := initialState_load_libEnv default secure .null
+  have e : Ext s1 (s1.alloc (.list [.int 1, .int 2, .int 3])).1 := (Ext.refl s1).alloc _
+  obtain ⟨f1, _, h1⟩ := loaded_isSrc hlib (d := list_reverse_list) (by simp [loadDefs])
+  obtain ⟨f2, _, h2⟩ := loaded_isSrc hlib (d := list_append_all) (by simp [loadDefs])
+  exact ⟨_, f1, f2, s1.heap.size, hlib.ext e, h1.ext e, h2.ext e, cell_alloc_new _ _⟩
+
+example : (∀ x ∈ reverseNats, x ∈ loadNats) ∧ (∀ x ∈ appendNats, x ∈ loadNats) ∧ (∀ x ∈ firstNats, x ∈ loadNats) ∧
+    (∀ x ∈ evenNats, x ∈ loadNats) := by decide
+
+
+/-! ## 13  the `while` rule is usable -/
+
+/-- `while FALSE do body`: an instance of the invariant rule `Ev.while` (invariant: the state is unchanged; variant 0) -/
+example (env : EnvId) (body : Node) (p q : Pos) (s : State) :
+    ∀ fuel, 3 < fuel → eval ld fuel env (.while (.lit (.bool false) p) body q) s = .ok (.bool true) s := by
+  obtain ⟨r', s', ⟨hr, hs⟩, _, hev⟩ := Ev.while ld (kc := 0) (kb := 0) (env := env) (c := .lit (.bool false) p) (body := body) (pos := q)
+    (fun r st => r = .bool true ∧ st = s) (fun _ => 0)
+    (fun r st hI => ⟨false, st, Ev.litBool ld, fun _ => hI, fun h => by cases h⟩) s ⟨rfl, rfl⟩
+  subst hr; subst hs
+  intro fuel hf; exact hev fuel (by simpa using hf)
+
+
+/-! ## 14  list.ckl: `reduce`, `prod` (a loop with assignment, calling a function VALUE passed as argument) -/
+
+/-- **The source of `reduce` is the left fold**: `list` a cell holding the int list `n :: ns`, `f` a binary built-in that computes
+    `g` on ints (`IntOp nm g`; instances `intOp_add`, `intOp_mul`): the result is `ns.foldl g n` = `reduceM g (n :: ns)`;
+    nothing that existed is changed (`Ext`, so the argument list is untouched); fuel bound `ns.length + 30`. -/
+theorem reduce_src_ints {s : State} {M nats srcs fn m} (h : LibEnv s M nats srcs) (hn : ∀ x ∈ reduceNats, x ∈ nats)
+    (hm : M m) (hsrc : IsSrc s fn list_reduce m) {nm : String} {g : Int → Int → Int} (hop : IntOp nm g) (i : Nat)
+    (a : Nat) (n : Int) (ns : List Int) (hc : s.cell a = some (.list ((n :: ns).map .int))) :
+    ∃ s', Ext s s' ∧ ∀ fuel env pos, ns.length + 30 < fuel →
+      callFn ld fuel fn [("list", .ref a), ("f", .native nm i)] env pos s = .ok (.int (ns.foldl g n)) s' :=
+  let ⟨s', e, c⟩ := reduce_calls_ints ld h hn hm hsrc hop i a n ns hc; ⟨s', e, fun fuel env pos hf => c env pos fuel hf⟩
+
+/-- … stated through the mirror `Lib.reduceM` of C19 (`C19.reduceM_eq_foldl`) -/
+theorem reduce_src_eq_mirror {s : State} {M nats srcs fn m} (h : LibEnv s M nats srcs) (hn : ∀ x ∈ reduceNats, x ∈ nats)
+    (hm : M m) (hsrc : IsSrc s fn list_reduce m) {nm : String} {g : Int → Int → Int} (hop : IntOp nm g) (i : Nat)
+    (a : Nat) (n : Int) (ns : List Int) (hc : s.cell a = some (.list ((n :: ns).map .int))) (r : Int)
+    (hr : reduceM g (n :: ns) = some r) :
+    ∃ s', Ext s s' ∧ ∀ fuel env pos, ns.length + 30 < fuel →
+      callFn ld fuel fn [("list", .ref a), ("f", .native nm i)] env pos s = .ok (.int r) s' :=
+  let ⟨s', e, c⟩ := reduce_calls_ints_reduceM ld h hn hm hsrc hop i a n ns hc r hr
+  ⟨s', e, fun fuel env pos hf => c env pos fuel hf⟩
+
+/-- `reduce(list, add)` on ints is the sum, `reduce(list, mul)` the product: the two instances of `IntOp` -/
+example : IntOp "add" (· + ·) ∧ IntOp "mul" (· * ·) := ⟨intOp_add, intOp_mul⟩
+
+/-- `reduce([], f)`: the runtime error whose VALUE is the text `Cannot reduce empty list` (for any `f`) -/
+theorem reduce_src_empty {s : State} {M nats srcs fn m} (h : LibEnv s M nats srcs) (hn : ∀ x ∈ reduceNats, x ∈ nats)
+    (hm : M m) (hsrc : IsSrc s fn list_reduce m) (a : Nat) (hc : s.cell a = some (.list [])) (f : RVal) :
+    ∃ s', Ext s s' ∧ ∀ fuel env pos, 30 < fuel → callFn ld fuel fn [("list", .ref a), ("f", f)] env pos s =
+      .err (.str "Cannot reduce empty list".toList) "" (reduceErrPos (lamBody list_reduce)) [] s' :=
+  let ⟨s', e, c⟩ := reduce_calls_empty ld h hn hm hsrc a hc f; ⟨s', e, fun fuel env pos hf => c env pos fuel hf⟩
+
+theorem reduce_src_null {s : State} {M nats srcs fn m} (h : LibEnv s M nats srcs) (hn : ∀ x ∈ reduceNats, x ∈ nats)
+    (hm : M m) (hsrc : IsSrc s fn list_reduce m) (f : RVal) :
+    ∃ s', Ext s s' ∧ ∀ fuel env pos, 30 < fuel → callFn ld fuel fn [("list", .null), ("f", f)] env pos s = .ok .null s' :=
+  let ⟨s', e, c⟩ := reduce_calls_null ld h hn hm hsrc f; ⟨s', e, fun fuel env pos hf => c env pos fuel hf⟩
+
+/-- **The source of `prod` computes `List.prod`** on a non-empty int list: `prod(list) = reduce(list, mul)`, both `reduce` and `mul`
+    resolved through the environment -/
+theorem prod_src_ints {s : State} {M nats srcs fn m} (h : LibEnv s M nats srcs) (hn : ∀ x ∈ prodNats, x ∈ nats)
+    (hs : ("reduce", list_reduce) ∈ srcs) (hm : M m) (hsrc : IsSrc s fn list_prod m)
+    (a : Nat) (n : Int) (ns : List Int) (hc : s.cell a = some (.list ((n :: ns).map .int))) :
+    ∃ s', Ext s s' ∧ ∀ fuel env pos, ns.length + 40 < fuel →
+      callFn ld fuel fn [("list", .ref a)] env pos s = .ok (.int (n :: ns).prod) s' :=
+  let ⟨s', e, c⟩ := prod_calls_ints_prod ld h hn hs hm hsrc a n ns hc; ⟨s', e, fun fuel env pos hf => c env pos fuel hf⟩
+
+/-- … which is the mirror `Lib.prodM` -/
+theorem prod_src_eq_mirror {s : State} {M nats srcs fn m} (h : LibEnv s M nats srcs) (hn : ∀ x ∈ prodNats, x ∈ nats)
+    (hs : ("reduce", list_reduce) ∈ srcs) (hm : M m) (hsrc : IsSrc s fn list_prod m)
+    (a : Nat) (n : Int) (ns : List Int) (hc : s.cell a = some (.list ((n :: ns).map .int))) (r : Int)
+    (hr : prodM (n :: ns) = some r) :
+    ∃ s', Ext s s' ∧ ∀ fuel env pos, ns.length + 40 < fuel →
+      callFn ld fuel fn [("list", .ref a)] env pos s = .ok (.int r) s' := by
+  obtain ⟨s', e, c⟩ := prod_calls_ints ld h hn hs hm hsrc a n ns hc
+  have : r = ns.foldl (· * ·) n := by
+    have := C19Src.reduceM_cons (fun a b : Int => a * b) n ns
+    unfold prodM at hr; rw [this] at hr; exact (Option.some.inj hr).symm
+  subst this
+  exact ⟨s', e, fun fuel env pos hf => c env pos fuel hf⟩
+
+example : (∀ x ∈ prodNats, x ∈ loadNats) ∧ ("reduce", list_reduce) ∈ loadDefs.map (fun d => (defName d, d)) :=
+  ⟨by decide, List.mem_map.2 ⟨list_reduce, by simp [loadDefs], rfl⟩⟩
+
 
 end Ckl.C19Src
